@@ -1,5 +1,172 @@
 import Adb.Spec.Verdict
-/- C15 — theorems follow. -/
+/-
+  C15 — Injected CSP is the union of matching csp rules minus excepted directives.
+  `cspMerge` is the merge the engine (`Blocker.csp?`) and the reference (`Spec.csp?`) both apply to the
+  matching csp rules; which rules match is C01's business (`index_complete`).
+-/
 namespace Adb.Net
-theorem placeholder_C15 : True := trivial
+open Adb
+
+/-- the directives of a CSP answer, as a list standing for a set (`none` = no policy) -/
+def directives (o : Option (List Str)) : List Str := o.getD []
+
+private theorem mem_dedupS_go (l : List Str) (acc : List Str) (d : Str) :
+    d ∈ l.foldl (fun acc x => if acc.contains x then acc else acc ++ [x]) acc ↔ d ∈ acc ∨ d ∈ l := by
+  induction l generalizing acc with
+  | nil => simp
+  | cons x xs ih =>
+    simp only [List.foldl_cons, ih, List.mem_cons]
+    split
+    · rename_i h
+      have hx : x ∈ acc := by simpa using h
+      constructor
+      · rintro (h | h); exact Or.inl h; exact Or.inr (Or.inr h)
+      · rintro (h | rfl | h); exact Or.inl h; exact Or.inl hx; exact Or.inr h
+    · simp only [List.mem_append, List.mem_singleton]
+      constructor
+      · rintro ((h | rfl) | h); exact Or.inl h; exact Or.inr (Or.inl rfl); exact Or.inr (Or.inr h)
+      · rintro (h | rfl | h); exact Or.inl (Or.inl h); exact Or.inl (Or.inr rfl); exact Or.inr h
+
+theorem mem_dedupS (l : List Str) (d : Str) : d ∈ dedupS l ↔ d ∈ l := by
+  unfold dedupS; rw [mem_dedupS_go]; simp
+
+/-- a matching csp exception that names no directive -/
+def blanket (fs : List Rule) : Prop := ∃ f ∈ fs, f.isException = true ∧ f.isCsp = true ∧ f.modifier = none
+
+/-- **C15, set equality**: a directive is in the returned policy iff some matching (non-exception)
+    csp rule carries it, no matching csp exception names it, and no matching csp exception is blanket.
+    Holds for every list of matching rules (any length, any order, duplicates allowed). -/
+theorem csp_set_eq_spec (fs : List Rule) (d : Str) :
+    d ∈ directives (cspMerge fs) ↔
+      (∃ f ∈ fs, f.isException = false ∧ f.isCsp = true ∧ f.modifier = some d) ∧
+      (¬ ∃ f ∈ fs, f.isException = true ∧ f.isCsp = true ∧ f.modifier = some d) ∧ ¬ blanket fs := by
+  unfold cspMerge directives blanket
+  split
+  · rename_i hb
+    simp only [Option.getD_none, List.not_mem_nil, false_iff]
+    simp only [List.any_eq_true, Bool.and_eq_true, Option.isNone_iff_eq_none] at hb
+    obtain ⟨f, hf, ⟨he, hc⟩, hm⟩ := hb
+    intro h; exact h.2.2 ⟨f, hf, he, hc, hm⟩
+  · rename_i hb
+    have hnb : ¬ ∃ f ∈ fs, f.isException = true ∧ f.isCsp = true ∧ f.modifier = none := by
+      rintro ⟨f, hf, he, hc, hm⟩
+      apply hb
+      simp only [List.any_eq_true, Bool.and_eq_true, Option.isNone_iff_eq_none]
+      exact ⟨f, hf, ⟨he, hc⟩, hm⟩
+    have key : ∀ l : List Str, d ∈ (if (dedupS l).isEmpty then none else some (dedupS l)).getD [] ↔ d ∈ l := by
+      intro l
+      split
+      · rename_i h
+        have : dedupS l = [] := by simpa using h
+        simp only [Option.getD_none, List.not_mem_nil, false_iff]
+        intro hd; have := (mem_dedupS l d).2 hd; simp_all
+      · simp [mem_dedupS]
+    rw [key]
+    simp only [List.mem_filter, List.mem_filterMap, Bool.and_eq_true,
+      List.contains_eq_mem, decide_eq_false_iff_not, Bool.not_eq_eq_eq_not, Bool.not_true]
+    constructor
+    · rintro ⟨⟨f, ⟨hf, he, hc⟩, hm⟩, hnd⟩
+      refine ⟨⟨f, hf, he, hc, hm⟩, ?_, hnb⟩
+      rintro ⟨g, hg, hge, hgc, hgm⟩
+      exact hnd ⟨g, ⟨hg, hge, hgc⟩, hgm⟩
+    · rintro ⟨⟨f, hf, he, hc, hm⟩, hnd, _⟩
+      refine ⟨⟨f, ⟨hf, he, hc⟩, hm⟩, ?_⟩
+      rintro ⟨g, ⟨hg, hge, hgc⟩, hgm⟩
+      exact hnd ⟨g, hg, hge, hgc, hgm⟩
+
+/-- the returned list has no duplicate directive (it stands for a set) -/
+theorem csp_nodup (fs : List Rule) : (directives (cspMerge fs)).Nodup := by
+  have hd : ∀ l : List Str, (dedupS l).Nodup := by
+    intro l
+    unfold dedupS
+    suffices h : ∀ acc : List Str, acc.Nodup →
+        (l.foldl (fun acc x => if acc.contains x then acc else acc ++ [x]) acc).Nodup from h [] (by simp)
+    induction l with
+    | nil => intro acc h; simpa
+    | cons x xs ih =>
+      intro acc h
+      simp only [List.foldl_cons]
+      apply ih
+      split
+      · exact h
+      · rename_i hx
+        rw [List.nodup_append]
+        refine ⟨h, by simp, ?_⟩
+        intro a ha b hb
+        simp only [List.mem_singleton] at hb
+        subst hb
+        intro hab; subst hab
+        apply hx; simpa using ha
+  unfold cspMerge directives
+  split
+  · simp
+  · dsimp only
+    split
+    · simp
+    · simpa using hd _
+
+/-- **rule and bucket order are irrelevant**: permuting the matching rules (and adding duplicates of
+    them, as a rule stored in several buckets produces) leaves the policy unchanged as a set. -/
+theorem csp_perm_invariant (fs gs : List Rule) (h : ∀ f, f ∈ fs ↔ f ∈ gs) (d : Str) :
+    d ∈ directives (cspMerge fs) ↔ d ∈ directives (cspMerge gs) := by
+  rw [csp_set_eq_spec, csp_set_eq_spec]
+  unfold blanket
+  simp only [h]
+
+/-- a policy is returned iff at least one directive remains -/
+theorem csp_some_iff (fs : List Rule) : (cspMerge fs).isSome ↔ directives (cspMerge fs) ≠ [] := by
+  unfold cspMerge directives
+  split
+  · simp
+  · dsimp only
+    split
+    · simp
+    · rename_i h; simp; simpa using h
+
+/-- **a blanket exception kills everything** -/
+theorem blanket_exception_kills_all (fs : List Rule) (h : blanket fs) : cspMerge fs = none := by
+  have : directives (cspMerge fs) = [] := by
+    apply List.eq_nil_iff_forall_not_mem.2
+    intro d hd
+    exact ((csp_set_eq_spec fs d).1 hd).2.2 h
+  cases hc : cspMerge fs with
+  | none => rfl
+  | some l =>
+    have := (csp_some_iff fs).1 (by simp [hc])
+    contradiction
+
+/-- **other request types never get a policy** (engine model and reference alike) -/
+theorem csp_none_for_other_types (b : Blocker) (q : Request)
+    (h : q.tyName ≠ "Document" ∧ q.tyName ≠ "Subdocument") : b.csp? q = none := by
+  unfold Blocker.csp?
+  simp [h.1, h.2]
+
+theorem spec_csp_none_for_other_types (rules : List Rule) (tags : List Str) (q : Request)
+    (h : q.tyName ≠ "Document" ∧ q.tyName ≠ "Subdocument") : Spec.csp? rules tags q = none := by
+  unfold Spec.csp?
+  simp [h.1, h.2]
+
+/-- **engine = reference** for the CSP query whenever the index returns exactly the matching csp rules
+    (that hypothesis is `index_complete`, C01), for every rule list, tag set and request. -/
+theorem csp_engine_eq_spec (b : Blocker) (rules : List Rule) (tags : List Str) (q : Request)
+    (hidx : ∀ f, f ∈ b.csp.checkAll q b.tagsEnabled ↔
+      f ∈ Spec.hits ((Spec.live rules).filter (fun f => cat f == .csp)) q tags) (d : Str) :
+    d ∈ directives (b.csp? q) ↔ d ∈ directives (Spec.csp? rules tags q) := by
+  unfold Blocker.csp? Spec.csp?
+  split
+  · simp
+  · exact csp_perm_invariant _ _ hidx d
+
+/-! ### non-vacuity -/
+private def mk (exc : Bool) (m : Option String) : Rule :=
+  { mask := (if exc then 2 ^ Gen.IS_EXCEPTION else 0) ||| 2 ^ Gen.IS_CSP, filter := .empty, hostname := none,
+    domains := none, notDomains := none, domainsUnion := none, notDomainsUnion := none,
+    modifier := m.map String.toList, tag := none, id := 0 }
+
+example : cspMerge [mk false (some "a"), mk false (some "b"), mk true (some "a"), mk false (some "b")]
+    = some ["b".toList] := by decide
+example : cspMerge [mk false (some "a"), mk true none] = none := by decide
+example : blanket [mk false (some "a"), mk true none] :=
+  ⟨mk true none, List.mem_cons_of_mem _ (List.mem_cons_self ..), by decide, by decide, rfl⟩
+
 end Adb.Net
